@@ -134,10 +134,20 @@ func c15GenHistory(r *core.Rng, probe bool) c15History {
 	if r.Chance(1, 3) {
 		hot = core.Pick(r, c15Prefixes)
 	}
+	veryHot := false
+	if !probe && r.Chance(1, 25) {
+		// past the step to three-digit suffixes: > 100 allocations of one prefix in one scope
+		hot = core.Pick(r, c15Prefixes)
+		n = r.Range(120, 150)
+		veryHot = true
+	}
 	base := 0
 	added := []string{}
 	for i := 0; i < n; i++ {
 		k := r.Intn(10)
+		if veryHot && k >= 6 && r.Chance(4, 5) {
+			k = 0
+		}
 		switch {
 		case k < 6: // scope op, mirrored on both scopes; extra suggests only on scope 1
 			for j := r.Intn(3); j > 0; j-- {
@@ -149,7 +159,11 @@ func c15GenHistory(r *core.Rng, probe bool) c15History {
 			if hot != "" && r.Chance(2, 3) {
 				nm = hot
 			}
-			switch x := r.Intn(10); {
+			x := r.Intn(10)
+			if veryHot && r.Chance(9, 10) {
+				nm, x = hot, 0
+			}
+			switch {
 			case x < 6:
 				op = c15Op{T: "alloc", A: nm}
 			case x < 8 && !probe:
